@@ -211,10 +211,81 @@ def _chi2_case(ctx, c):
         ctx.notes.append('svd contract (uu = vv^T, ww > 0) not met on case %s' % c['gen'])
 
 
+def _gen_chi2_scaled(g):
+    """full-rank systems whose columns differ in scale by orders of magnitude (a continuum in raw counts next to a
+    unit-height line, a polynomial in raw pixel number): cond(A sqrt(W)) between 1e3 and 3e5"""
+    rs = np.random.RandomState(g['nseed'])
+    n, m = g['n'], g['m']
+    for _ in range(400):
+        if g['kind'] == 'pixpoly':
+            x = np.arange(n, dtype='d') * rs.choice([1.0, 3.0, 10.0])
+            A = np.vander(x, m, increasing=True)
+        else:
+            A = rs.standard_normal((n, m)) * 10.0 ** rs.uniform(-g['decades'], g['decades'], size=m)
+        b = A @ (rs.standard_normal(m) / np.maximum(np.abs(A).max(0), 1e-300)) * g['signal'] * 10.0 + rs.standard_normal(n)
+        sq = np.exp(rs.uniform(-1.0, 1.0, size=n))
+        zero = rs.uniform(size=n) < g['pzero']
+        if n - zero.sum() < m + 2:
+            continue
+        sq[zero] = 0.0
+        cond = np.linalg.cond(A * sq[:, None])
+        if 1e3 <= cond <= 3e5:
+            return A, b, sq, float(cond)
+    return None
+
+
+def _chi2_scaled_case(ctx, c):
+    """oracle-only stream (the exact rational solution is the reference; tolerance grows with cond^2 because the code
+    inverts the normal matrix)"""
+    from pydl.pydlutils.math import computechi2
+    got = _gen_chi2_scaled(c['gen'])
+    if got is None:
+        ctx.count('chi2-scaled:generator-gave-up')
+        return
+    A, b, sq, cond = got
+    n, m = A.shape
+    ctx.seen(c)
+    ctx.count('chi2-scaled:%s:cond~1e%d' % (c['gen']['kind'], int(np.log10(cond))))
+    full = dict(c, input={'A': _lst(A), 'b': _lst(b), 'sqivar': _lst(sq)}, cond=cond)
+    try:
+        o = computechi2(b, sq, A)
+        yfit, chi2 = np.array(o.yfit), float(o.chi2)
+    except Exception as e:
+        ctx.violate('chi2:exception:' + core.exc_kind(e), 'computechi2 raised on a full-rank system (cond %.3g)' % cond, full)
+        return
+    xe, inve, chie = _exact_wls(A, b, sq)
+    tol = max(1e-9, 1e-12 * cond * cond)
+    ye = A @ xe
+    good = sq > 0
+    scale = max(1.0, float(np.max(np.abs(b))))
+    if np.max(np.abs((yfit - ye)[good])) > tol * scale * 10:
+        ctx.violate('chi2:yfit', 'fitted values differ from the exact weighted least-squares fit by %.3g (cond %.3g, tolerance %.3g)'
+                    % (float(np.max(np.abs((yfit - ye)[good]))), cond, tol * scale * 10), full)
+    chis = max(1.0, float(np.sum((b * sq) ** 2)))
+    if chi2 - chie > tol * chis * 10:
+        ctx.violate('chi2:chi2', 'chi2 %r is above the exact minimum %r (cond %.3g)' % (chi2, chie, cond), full)
+    if False:
+        yield None
+
+
 def _chi2(ctx, cases=None):
     if cases is None:
+        scaled = []
+        for i in range(ctx.n(150, 3000)):
+            m = ctx.rng.choice([2, 2, 3, 3, 4])
+            kind = ctx.rng.choice(['scaled', 'scaled', 'pixpoly'])
+            scaled.append({'stream': 'chi2-scaled', 'gen': {'nseed': ctx.rng.getrandbits(32), 'n': ctx.rng.randrange(m + 4, 41),
+                                                            'm': m if kind == 'scaled' else min(m, 3), 'kind': kind,
+                                                            'decades': ctx.rng.choice([1.5, 2.0, 2.5]),
+                                                            'pzero': ctx.rng.choice([0.0, 0.1, 0.3]),
+                                                            'signal': ctx.rng.choice([1.0, 10.0])}})
+        _run_stream(ctx, _chi2_scaled_case, scaled)
+    elif cases and cases[0].get('stream') == 'chi2-scaled':
+        _run_stream(ctx, _chi2_scaled_case, cases)
+        return
+    if cases is None:
         cases = []
-        for i in range(ctx.n(40, 4000)):
+        for i in range(ctx.n(120, 4000)):
             m = ctx.rng.choice([1, 2, 2, 3, 3, 4, 5, 6])
             n = ctx.rng.randrange(m + 2, 41)
             cases.append({'stream': 'chi2', 'gen': {'nseed': ctx.rng.getrandbits(32), 'n': n, 'm': m,
@@ -303,7 +374,7 @@ def _pcomp_case(ctx, c):
 def _pcomp(ctx, cases=None):
     if cases is None:
         cases = []
-        for i in range(ctx.n(40, 4000)):
+        for i in range(ctx.n(120, 4000)):
             nv = ctx.rng.choice([2, 3, 4, 4, 5, 6])
             cases.append({'stream': 'pcomp', 'gen': {'nseed': ctx.rng.getrandbits(32), 'nv': nv, 'no': ctx.rng.randrange(nv + 3, 41),
                                                     'noise': ctx.rng.choice([0.3, 1.0]), 'standardize': i % 2 == 1, 'covariance': (i // 2) % 2 == 1}})
@@ -485,7 +556,7 @@ def _hmf_step_case(ctx, c):
 def _hmf_step(ctx, cases=None):
     if cases is None:
         cases = []
-        for i in range(ctx.n(36, 3000)):
+        for i in range(ctx.n(100, 3000)):
             K = ctx.rng.choice([1, 2, 3, 4])
             nn = i % 3 == 2
             cases.append({'stream': 'hmf_step', 'gen': {
@@ -579,7 +650,7 @@ def _hmf_solve_case(ctx, c):
 def _hmf_solve(ctx, cases=None):
     if cases is None:
         cases = []
-        for i in range(ctx.n(14, 1000)):
+        for i in range(ctx.n(40, 1000)):
             K = ctx.rng.choice([1, 2, 3, 4])
             nn = i % 2 == 1
             cases.append({'stream': 'hmf_solve', 'gen': {
@@ -672,7 +743,7 @@ def _pca_case(ctx, c):
 def _pca(ctx, cases=None):
     if cases is None:
         cases = []
-        for i in range(ctx.n(16, 1500)):
+        for i in range(ctx.n(40, 1500)):
             nk = ctx.rng.choice([1, 2, 2, 3])
             cases.append({'stream': 'pca', 'gen': {
                 'nseed': ctx.rng.getrandbits(32), 'nkeep': nk, 'nobj': ctx.rng.randrange(nk + 3, 12), 'npix': ctx.rng.randrange(20, 50),
